@@ -68,7 +68,7 @@ def c17_r1(ctx):
     an = [norm.deep_canon(c.args[1], fi.node) for c in wv]
     ctx.ob(fi, an == ["self.analyzer"], "FieldType.index analyses with self.analyzer", detail=str(an))
     tk = prog.method("fields.FieldType", "tokenize", inherited=False)
-    rets = [norm.canon(r.value) for r in returns_of(tk) if r.value is not None]
+    rets = [norm.canon(r.value, norm.aliases(tk.node)) for r in returns_of(tk) if r.value is not None]
     ctx.ob(tk, any(r.startswith("self.analyzer(") for r in rets), "FieldType.tokenize calls self.analyzer", detail=str(rets))
     pt = prog.method("fields.FieldType", "process_text", inherited=False)
     ok = any(norm.call_name(c) == "tokenize" and any(k.arg == "mode" and norm.canon(k.value) == "mode" for k in c.keywords)
